@@ -9,6 +9,7 @@ import (
 	"github.com/sdcio/yang-parser/compile"
 
 	"verifharness/internal/core"
+	"verifharness/internal/dump"
 	"verifharness/internal/yang"
 )
 
@@ -417,6 +418,28 @@ func c11Gen(seed int64, idx int) c11Case {
 			c.injector, c.kind = in.name, "dangling"
 		}
 	}
+	if c.kind == "valid" && idx%2 == 1 {
+		// lists whose order comes out of maps inside the compiler: five identities derived from one base,
+		// five features, four modules deviating the first module
+		a := modA(ms)
+		pa := pfx(a)
+		var kids []*yang.Stmt
+		kids = append(kids, yang.S("identity", "ord-base"))
+		for i := 1; i <= 5; i++ {
+			kids = append(kids, yang.S("identity", fmt.Sprintf("ord-d%d", i), yang.S("base", "ord-base")), yang.S("feature", fmt.Sprintf("ord-f%d", i)))
+			ms.Features = append(ms.Features, fmt.Sprintf("%s:ord-f%d", a.Arg, i))
+		}
+		kids = append(kids, yang.S("container", "ord-c", yang.S("leaf", "idr", yang.S("type", "identityref", yang.S("base", "ord-base"))),
+			yang.S("leaf", "w", yang.S("type", "string")), yang.S("leaf", "x", yang.S("type", "string")), yang.S("leaf", "y", yang.S("type", "string")), yang.S("leaf", "z", yang.S("type", "string"))))
+		addBody(a, kids...)
+		for i, lf := range []string{"w", "x", "y", "z"} {
+			d := yang.S("module", fmt.Sprintf("ord-dev%d", i+1), yang.S("namespace", fmt.Sprintf("urn:verif:ord-dev%d", i+1)), yang.S("prefix", "od"),
+				yang.S("import", a.Arg, yang.S("prefix", "oa")),
+				yang.S("deviation", "/oa:ord-c/oa:"+lf, yang.S("deviate", "add", yang.S("units", "u"))))
+			_ = pa
+			ms.Mods = append(ms.Mods, d)
+		}
+	}
 	// homonyms: well-formed definitions carrying the names the injectors use, in the other
 	// modules (for valid sets: in every module).  Names are scoped per module, so a verdict
 	// must not depend on which of two same-named definitions the compiler meets first.
@@ -530,6 +553,7 @@ func (p *c11) Describe(tier string, seed int64, idx int) string {
 
 func (p *c11) Run(tier string, seed int64, idx int) core.CaseResult {
 	var res core.CaseResult
+	dump.KeepListOrder = true // the order of returned lists is part of the outcome that must not change between runs
 	c := c11Gen(seed, idx)
 	texts := c.ms.Texts(nil)
 	var names []string
